@@ -26,7 +26,7 @@ func (c17) Rule() string {
 		"{'', '/', '~', '~0', '~1', '~01', '%', '%25', ' ', 'a b', 'é', '日本', '0', '01', '-', '#', '?', '\"', '\\\\', 'a/b', '~~', '%2F', '+1', '-0'} x indices 0-11; the document is {$ref:'#'+enc(L), $defs:{T:tree}} where the node at L is {const:'HIT'}, " +
 		"every sibling in the same array/map/other keyword is {const:'S<n>'} and ancestors are structural containers whose verdict vector differs from the leaf's; the pointer is escaped (~0,~1) and percent-encoded by the harness's own encoder. " +
 		"Expected by construction: HIT valid, every other marker invalid. Invalid pointers (25%): index = len, '-', '01', '+1', '-0', '1.0', missing key, pointer ending on a map / array / scalar keyword (/properties, /allOf, /type, /required/0, /enum/0, /const), " +
-		"a dependencies entry that is a string array, '~2', trailing '~', bad percent escape, a step into a boolean schema: Resolve must fail. " +
+		"a dependencies entry that is a string array, '~2', trailing '~', bad percent escape, a step into a boolean schema, indices at and beyond 2^63 / 2^64 (which must not wrap to a valid element): Resolve must fail. " +
 		"Non-trivial: a key needs escaping, or a union/draft-07 keyword is on the path, or depth >= 3; distinct by (keyword sequence, escape classes)."
 }
 func (c17) Assumptions() []string {
@@ -290,7 +290,7 @@ func (c17) invalid(c *fw.Case, d *ptrDoc) {
 	var bad, class string
 	base := d.parentPtr + "/" + ptrEscape(d.lastKeyword)
 	enc := true
-	switch k := r.IntN(14); {
+	switch k := r.IntN(15); {
 	case k == 0 && d.lastKind == stepArray:
 		bad, class = base+"/"+fmt.Sprint(d.lastArrayLen), "index=len"
 	case k == 1 && d.lastKind == stepArray:
@@ -299,6 +299,10 @@ func (c17) invalid(c *fw.Case, d *ptrDoc) {
 		bad, class = base+"/0"+fmt.Sprint(r.IntN(2)), "leading-zero"
 	case k == 3 && d.lastKind == stepArray:
 		bad, class = base+"/"+gen.Pick(r, []string{"+1", "-0", "+0", "1.0", "1e0", " 1", "0x1", "１"}), "non-digit-index"
+	case k == 13 && d.lastKind == stepArray:
+		// indices around 2^63 / 2^64: must be errors, never wrap to a valid element
+		huge := []string{"9223372036854775807", "9223372036854775808", "18446744073709551615", "18446744073709551616", "18446744073709551617", "36893488147419103232", "36893488147419103233", "340282366920938463463374607431768211456", "4294967296", "99999999999999999999999999"}
+		bad, class = base+"/"+gen.Pick(r, huge), "huge-index"
 	case k == 4 && d.lastKind == stepMap:
 		bad, class = base+"/zz-missing-key", "missing-key"
 	case k == 5 && d.lastKind != stepSingle:
@@ -319,7 +323,7 @@ func (c17) invalid(c *fw.Case, d *ptrDoc) {
 		d.root["$defs"].(map[string]any)["T"].(map[string]any)["dependencies"] = map[string]any{"strs": []any{"x"}}
 		d.root["$schema"] = gen.Schema7URI
 		bad, class = "/$defs/T/dependencies/strs", "dependencies-string-array"
-	case k == 12:
+	case k == 12 || k == 14 && d.lastKind != stepArray:
 		d.root["$defs"].(map[string]any)["B"] = true
 		bad, class = "/$defs/B/"+gen.Pick(r, []string{"not", "properties", "allOf/0"}), "into-boolean-schema"
 	default:
